@@ -1,6 +1,6 @@
 (* C11 - restart (loadLastState / repair), reflection of the invariants into the
    executable checks, and the theorems over all histories. *)
-From VF.C11 Require Import Model ProofsA ProofsB ProofsC ProofsD ProofsE ProofsF ProofsG ProofsH.
+From VF.C11 Require Import Model ProofsA ProofsB ProofsC ProofsD ProofsE ProofsF ProofsH.
 From Coq Require Import Lia ZifyBool ZifyN ZifyNat.
 Local Open Scope N_scope.
 
@@ -103,19 +103,30 @@ Proof.
   assert (E : (bnum b <=? bnum hb) = true) by (apply N.leb_le; auto). rewrite E. reflexivity.
 Qed.
 
-Lemma canon_good_of_DInv : forall d, DInv d -> (forall h b, info t h = Some b -> bhv b <> 1) -> canon_good t d = true.
+Lemma canon_good_of_DInv : forall d, DInv d -> canon_good t d = true.
 Proof.
-  intros d HD Hnb. unfold canon_good. apply forallb_forall. intros [n h] Hin. cbn [snd].
+  intros d HD. unfold canon_good. apply forallb_forall. intros [n h] Hin. cbn [snd].
   destruct (D_canon t g d HD n h Hin) as [Hs _].
-  destruct (D_info t g d HD h Hs) as [b [I1 [[I2|I2] _]]]; rewrite I1; auto.
-  exfalso. eapply Hnb; eauto.
+  destruct (D_info t g d HD h Hs) as [b [I1 [I2 _]]]. rewrite I1. exact I2.
 Qed.
+
+Lemma consistent_of_Good : forall d, Good t g d -> consistent_b t d (d_headB d) = true.
+Proof.
+  intros d [HD [_ HQ]]. unfold consistent_b. rewrite chain_consistent_of_Qd, canon_good_of_DInv; auto.
+Qed.
+
 
 Lemma DInv_headH : forall d h, DInv d -> DInv (apply_write [WHeadH h] d).
 Proof. intros. apply (DInv_soft_write t g); auto. Qed.
 
 Lemma Qd_headH : forall d h, Qd d -> Qd (apply_write [WHeadH h] d).
 Proof. intros. apply (Qd_add t (WHeadH h)); auto. Qed.
+
+Lemma Good_headH : forall d h, Good t g d -> Good t g (apply_write [WHeadH h] d).
+Proof.
+  intros d h [HD [HB HQ]]. split; [apply DInv_headH; auto|]. split; [exact HB|apply Qd_headH; auto].
+Qed.
+
 
 (* ---- histories -------------------------------------------------------------------------------- *)
 
@@ -128,43 +139,16 @@ Proof.
   apply IH. apply (J_InsertChain t g); auto. apply blocks_of_tb.
 Qed.
 
-Lemma nocrash_run : forall fuel hist s, nocrash s -> nocrash (run t fuel s hist).
-Proof.
-  intros fuel. induction hist as [|ids hist IH]; intros s H; simpl; auto.
-  apply IH. apply (fr_InsertChain t nocrash nocrash_closed); auto.
-Qed.
-
-Lemma init_nocrash : nocrash (init_st g).
-Proof. split; simpl; auto. Qed.
-
-(* every state of a history that was never killed: its database is consistent
-   relative to its own head marker, and the running node's head is that marker *)
-Lemma run_Qd : forall fuel hist, let s := run t fuel (init_st g) hist in
-  DInv (disk_of s) /\ Qd (disk_of s) /\ (alive s -> cur s = d_headB (disk_of s) /\ B0 (disk_of s)).
-Proof.
-  intros fuel hist s.
-  pose proof (J_run fuel hist _ (init_J t g Hg Hg0 Hgood)) as [HD [HA HX]].
-  pose proof (nocrash_run fuel hist _ init_nocrash) as [Hm Hb].
-  fold s in HD, HA, HX, Hm, Hb. split; auto.
-  destruct (alive_dec s) as [Ha|Hd].
-  - destruct (HA Ha) as [B [Q C]]. split; auto.
-  - split; [apply HX; auto|].
-    intros Ha. exfalso; apply Ha; auto.
-Qed.
-
+(* every state of a history: its database is good, and the running node's head
+   is the database's head marker *)
 Lemma import_consistent : forall fuel hist, let s := run t fuel (init_st g) hist in
-  chain_consistent_b t (disk_of s) (d_headB (disk_of s)) = true /\
+  consistent_b t (disk_of s) (d_headB (disk_of s)) = true /\
   (budget s = None -> cur s = d_headB (disk_of s)).
 Proof.
-  intros fuel hist s. destruct (run_Qd fuel hist) as [HD [HQ HA]]. fold s in HD, HQ, HA.
-  split; [apply chain_consistent_of_Qd; auto|].
-  intros Hb. apply HA. unfold alive. rewrite Hb. discriminate.
-Qed.
-
-Lemma import_canon_good : forall fuel hist, (forall h b, info t h = Some b -> bhv b <> 1) ->
-  canon_good t (disk_of (run t fuel (init_st g) hist)) = true.
-Proof.
-  intros fuel hist Hnb. destruct (run_Qd fuel hist) as [HD _]. apply canon_good_of_DInv; auto.
+  intros fuel hist s.
+  pose proof (J_run fuel hist _ (init_J t g Hg Hg0 Hgood)) as [HG HC]. fold s in HG, HC.
+  split; [apply consistent_of_Good; auto|].
+  intros Hb. apply HC. unfold alive. rewrite Hb. discriminate.
 Qed.
 
 (* the node is killed after the k-th write of the next import *)
@@ -173,44 +157,44 @@ Lemma J_crash_run : forall fuel hist batch k, let s0 := run t fuel (init_st g) h
 Proof.
   intros fuel hist batch k s0 Hb. unfold crash_run.
   apply (J_InsertChain t g); auto; [|apply blocks_of_tb].
-  destruct (run_Qd fuel hist) as [HD [HQ HA]]. fold s0 in HD, HQ, HA.
-  assert (Ha : alive s0) by (unfold alive; rewrite Hb; discriminate).
-  destruct (HA Ha) as [Hc Hb0].
-  unfold ProofsB.J, with_budget, alive; simpl. split; [auto|]. split; [intros _; auto|intros _ _; auto].
+  pose proof (J_run fuel hist _ (init_J t g Hg Hg0 Hgood)) as [HG HC]. fold s0 in HG, HC.
+  split; [exact HG|]. intros _. simpl. apply HC. unfold alive. rewrite Hb. discriminate.
 Qed.
 
-Lemma restart_succeeds : forall fuel hist batch k, let s0 := run t fuel (init_st g) hist in
-  budget s0 = None -> exists d h, recover t (disk_of (crash_run t fuel s0 batch k)) = Some (d, h).
-Proof.
-  intros fuel hist batch k s0 Hb. destruct (J_crash_run fuel hist batch k Hb) as [HD _].
-  apply recover_succeeds; auto.
-Qed.
-
-Lemma crash_consistent_outside : forall fuel hist batch k, let s0 := run t fuel (init_st g) hist in
+Lemma crash_consistent : forall fuel hist batch k, let s0 := run t fuel (init_st g) hist in
   let sk := crash_run t fuel s0 batch k in
-  budget s0 = None -> crashmid sk = false ->
-  exists d h, recover t (disk_of sk) = Some (d, h) /\ chain_consistent_b t d h = true /\
-              ((forall x b, info t x = Some b -> bhv b <> 1) -> canon_good t d = true).
+  budget s0 = None ->
+  exists d, recover t (disk_of sk) = Some (d, d_headB (disk_of sk)) /\
+            consistent_b t d (d_headB (disk_of sk)) = true /\ Good t g d /\ d_headB d = d_headB (disk_of sk).
 Proof.
-  intros fuel hist batch k s0 sk Hb Hm. destruct (J_crash_run fuel hist batch k Hb) as [HD [HA HX]]. fold s0 sk in HD, HA, HX.
-  assert (HQ : Qd (disk_of sk)).
-  { destruct (alive_dec sk) as [Ha|Hd]; [destruct (HA Ha) as [_ [Q _]]; auto|].
-    apply HX; auto. }
-  exists (apply_write [WHeadH (d_headB (disk_of sk))] (disk_of sk)), (d_headB (disk_of sk)).
-  split; [apply recover_Qd; auto|]. split.
-  - apply (chain_consistent_of_Qd (apply_write [WHeadH (d_headB (disk_of sk))] (disk_of sk))).
-    + apply DInv_headH; auto.
-    + apply Qd_headH; auto.
-  - intros Hnb. apply canon_good_of_DInv; auto. apply DInv_headH; auto.
+  intros fuel hist batch k s0 sk Hb. destruct (J_crash_run fuel hist batch k Hb) as [HG _]. fold s0 sk in HG.
+  pose proof HG as [HD [HB HQ]].
+  exists (apply_write [WHeadH (d_headB (disk_of sk))] (disk_of sk)).
+  split; [apply recover_Qd; auto|].
+  pose proof (Good_headH _ (d_headB (disk_of sk)) HG) as HG'.
+  split; [|split; [exact HG'|reflexivity]].
+  apply (consistent_of_Good _ HG').
 Qed.
 
-(* no invalid block in the index at any crash point either *)
-Lemma crash_canon_good : forall fuel hist batch k, let s0 := run t fuel (init_st g) hist in
-  budget s0 = None -> (forall x b, info t x = Some b -> bhv b <> 1) ->
-  canon_good t (disk_of (crash_run t fuel s0 batch k)) = true.
+(* the restarted node is a node in good standing again: everything proved about
+   histories from a freshly initialised database holds from it *)
+Lemma J_fresh : forall d, Good t g d -> J (fresh d (d_headB d)).
+Proof. intros d HG. split; auto. Qed.
+
+Lemma restarted_run_consistent : forall fuel hist batch k hist2, let s0 := run t fuel (init_st g) hist in
+  let sk := crash_run t fuel s0 batch k in
+  budget s0 = None ->
+  exists d, recover t (disk_of sk) = Some (d, d_headB (disk_of sk)) /\
+    let s := run t fuel (fresh d (d_headB (disk_of sk))) hist2 in
+    consistent_b t (disk_of s) (d_headB (disk_of s)) = true /\ (budget s = None -> cur s = d_headB (disk_of s)).
 Proof.
-  intros fuel hist batch k s0 Hb Hnb. destruct (J_crash_run fuel hist batch k Hb) as [HD _].
-  apply canon_good_of_DInv; auto.
+  intros fuel hist batch k hist2 s0 sk Hb.
+  destruct (crash_consistent fuel hist batch k Hb) as [d [R [_ [HG Hh]]]]. fold s0 sk in R, Hh.
+  exists d. split; auto. intros s.
+  assert (HJ : J (fresh d (d_headB (disk_of sk)))) by (rewrite <- Hh; apply J_fresh; auto).
+  pose proof (J_run fuel hist2 _ HJ) as [HG2 HC2]. fold s in HG2, HC2.
+  split; [apply consistent_of_Good; auto|].
+  intros Hb2. apply HC2. unfold alive. rewrite Hb2. discriminate.
 Qed.
 
 End Final.
